@@ -184,8 +184,22 @@ func genMerkleConsts(repo string) (string, error) {
 	if err != nil {
 		return "", err
 	}
+	// every package-level `var` of the file (the model has no state between calls)
+	var pkgVars []string
+	for _, d := range f.Decls {
+		g, ok := d.(*ast.GenDecl)
+		if !ok || g.Tok != token.VAR {
+			continue
+		}
+		for _, sp := range g.Specs {
+			for _, n := range sp.(*ast.ValueSpec).Names {
+				pkgVars = append(pkgVars, fmt.Sprintf("%q", n.Name))
+			}
+		}
+	}
 	var b strings.Builder
 	b.WriteString("/- GENERATED by /verif/gen from protocol/bc/types/merkle.go — do not edit -/\nnamespace BytomModel.Gen.MerkleConsts\n")
+	fmt.Fprintf(&b, "/-- names of all package-level variables declared in merkle.go, in source order -/\ndef packageVars : List String := [%s]\n", strings.Join(pkgVars, ", "))
 	fmt.Fprintf(&b, "def flagAssist : Nat := %d\ndef flagTxParent : Nat := %d\ndef flagTxLeaf : Nat := %d\n", idx["FlagAssist"], idx["FlagTxParent"], idx["FlagTxLeaf"])
 	fmt.Fprintf(&b, "def leafPrefix : List Nat := %s\ndef interiorPrefix : List Nat := %s\n", txtBytesLit(lp), txtBytesLit(ip))
 	b.WriteString("end BytomModel.Gen.MerkleConsts\n")
